@@ -26,7 +26,7 @@ def run_impl(c, thr):
     from skchange.anomaly_detectors import CircularBinarySegmentation
     cols = c["score"]
     X = pd.DataFrame(np.zeros((c["n"], len(cols))))
-    d = CircularBinarySegmentation(anomaly_score=ts.FnLocalScore(lambda j, s, a, b, e: cols[j](s, a, b, e), len(cols), int_dtype=(c["n"] + c["m"]) % 3 == 0),
+    d = CircularBinarySegmentation(anomaly_score=(ts.FnLocalScoreSub(None, lambda j, s, a, b, e: cols[j](s, a, b, e), len(cols)) if (c["n"] + c["m"]) % 3 == 1 else ts.FnLocalScore(lambda j, s, a, b, e: cols[j](s, a, b, e), len(cols), int_dtype=(c["n"] + c["m"]) % 3 == 0)),
                                    threshold_scale=1.0, min_segment_length=c["m"], max_interval_length=c["maxlen"],
                                    growth_factor=c["g"]).fit(pd.DataFrame(np.zeros((len(X) + (len(X) * 7 + 3) % 5, X.shape[1]))))
     d.threshold_ = float(thr)
